@@ -1,7 +1,7 @@
 (* C20 - edit_rules only removes base structures, and only those that fail the
    filter.  Theorems only (model and proofs in EditRules.v). *)
 From Coq Require Import List Arith Bool NArith.
-From Pcfg Require Import EditRules SmallGenProofsEdit.
+From Pcfg Require Import EditRules EditCorr SmallGenProofsEdit.
 From PcfgGen Require Import Small_edit_gen.
 Import ListNotations.
 
@@ -14,6 +14,14 @@ Theorem C20_filter :
   Forall well_formed ls -> Forall (fun l => total_len (tokens (gstruct l)) <> None) ls ->
   edit re_search c ls = Ok (filter (keep re_search c) ls).
 Proof. exact edit_is_filter. Qed.
+
+(* the two hypotheses as a computable test: the check evaluates [check_wf] on the lines of every
+   grammar.txt the real trainer writes during a run (correspondence obligation trainer-lines) *)
+Theorem C20_filter_checked :
+  forall (re_search : str -> str -> bool) c ls,
+  check_wf ls = true ->
+  edit re_search c (mk_lines ls) = Ok (filter (keep re_search c) (mk_lines ls)).
+Proof. exact edit_is_filter_checked. Qed.
 
 (* label arithmetic of a kept structure under bounds *)
 Theorem C20_length_bound_labels :
@@ -81,6 +89,7 @@ Example C20_source_filter_example :
 Proof. exact small_edit_example. Qed.
 
 Print Assumptions C20_filter.
+Print Assumptions C20_filter_checked.
 Print Assumptions C20_source_edit_passes_is_model.
 Print Assumptions C20_source_filter.
 Print Assumptions C20_length_bound_labels.
